@@ -823,6 +823,8 @@ class ClientRequestBase:
         ssl: SSLContext | bool | Fingerprint,
         trust_env: bool = False,
     ):
+        if not method:
+            raise ValueError("Method cannot be empty")
         if match := _CONTAINS_CONTROL_CHAR_RE.search(method):
             raise ValueError(
                 f"Method cannot contain non-token characters {method!r} "
